@@ -236,6 +236,26 @@ fn eval_crlf(op: &str, f: &[&str]) -> CaseRec {
     CaseRec { op: op.to_string(), impl_out, oracle_fail: fails, nontrivial: n, tags: vec![format!("crlf:has-crlf={n}"), format!("crlf:len={}", if bs.len() > 8 { ">8".to_string() } else { bs.len().to_string() })] }
 }
 
+/// `strip <bytes>`: scrut's stripper vs. the model vs. the reference written from ECMA-48
+fn eval_stripfn(op: &str, f: &[&str]) -> CaseRec {
+    let bs = unhex(f[1]);
+    let mut fails = vec![];
+    let impl_out = match guarded(|| scrut::escaping::strip_ansi_sequences_bytes(&bs)) {
+        Ok(r) => {
+            let want = ref_strip_ansi(&bs);
+            if r != want {
+                fails.push(("C13:strip-ansi-bytes".to_string(), format!("strip_ansi_sequences_bytes({}) = {}, expected {}", hex(&bs), hex(&r), hex(&want))));
+            }
+            hex(&r)
+        }
+        Err(e) => {
+            fails.push(("C13:crash".to_string(), format!("strip_ansi_sequences_bytes panicked: {e}")));
+            "crash".into()
+        }
+    };
+    CaseRec { op: op.to_string(), impl_out, oracle_fail: fails, nontrivial: bs.contains(&0x1b), tags: vec![format!("strip:has-esc={}", bs.contains(&0x1b)), format!("strip:len={}", bs.len().min(9))] }
+}
+
 fn eval_rout(op: &str, f: &[&str]) -> CaseRec {
     let (k, s, bs) = (ob(f[1]), ob(f[2]), unhex(f[3]));
     let tc = testcase("x", TestCaseConfig { keep_crlf: k, strip_ansi_escaping: s, ..TestCaseConfig::empty() });
@@ -243,18 +263,13 @@ fn eval_rout(op: &str, f: &[&str]) -> CaseRec {
     let processed = if k == Some(true) { bs.clone() } else { crlf_spec(&bs) };
     let impl_out = match guarded(|| tc.render_output(&bs).map(|c| c.to_vec())) {
         Ok(Ok(r)) => {
-            if s == Some(true) {
-                // the stripper is a third-party crate: only its argument is checked
-                match scrut::escaping::strip_colors_bytes(&processed) {
-                    Ok(x) if x == r => format!("strip:{}", hex(&processed)),
-                    _ => "strip-mismatch".to_string(),
-                }
-            } else {
-                if r != processed {
-                    fails.push(("C13:stdout-bytes".to_string(), format!("render_output(keep_crlf={k:?}, strip={s:?}) changed {} into {}", hex(&bs), hex(&r))));
-                }
-                hex(&r)
+            // documented transformations only: CR LF -> LF unless keep_crlf, escape sequences removed iff strip_ansi_escaping
+            let want = if s == Some(true) { ref_strip_ansi(&processed) } else { processed.clone() };
+            if r != want {
+                let class = if s == Some(true) { "C13:strip-ansi-bytes" } else { "C13:stdout-bytes" };
+                fails.push((class.to_string(), format!("render_output(keep_crlf={k:?}, strip={s:?}) changed {} into {}, expected {}", hex(&bs), hex(&r), hex(&want))));
             }
+            hex(&r)
         }
         Ok(Err(_)) => "error".into(),
         Err(e) => {
@@ -610,6 +625,60 @@ fn eval_big(op: &str, f: &[&str]) -> CaseRec {
     CaseRec { op: op.to_string(), impl_out: "unmodelled".into(), oracle_fail: fails, nontrivial: true, tags: vec![format!("big:mode={mode},kib={kib},crlf-pairs={pairs}")] }
 }
 
+/// reference: remove ANSI escape sequences (ECMA-48: CSI `ESC [ P* I* F`, OSC `ESC ] … BEL | ESC \`, other
+/// escape sequences `ESC I* F`; DCS/SOS/PM/APC strings like OSC), keep every other byte
+fn ref_strip_ansi(bs: &[u8]) -> Vec<u8> {
+    let mut out = vec![];
+    let mut i = 0;
+    while i < bs.len() {
+        if bs[i] != 0x1b {
+            out.push(bs[i]);
+            i += 1;
+            continue;
+        }
+        i += 1;
+        match bs.get(i) {
+            Some(b'[') => {
+                i += 1;
+                while i < bs.len() && (0x30..=0x3f).contains(&bs[i]) {
+                    i += 1;
+                }
+                while i < bs.len() && (0x20..=0x2f).contains(&bs[i]) {
+                    i += 1;
+                }
+                if i < bs.len() && (0x40..=0x7e).contains(&bs[i]) {
+                    i += 1;
+                }
+            }
+            // command strings: OSC `]`, DCS `P`, SOS `X`, PM `^`, APC `_`, each up to BEL or ST
+            Some(b']' | b'P' | b'X' | b'^' | b'_') => {
+                i += 1;
+                while i < bs.len() {
+                    if bs[i] == 0x07 {
+                        i += 1;
+                        break;
+                    }
+                    if bs[i] == 0x1b && bs.get(i + 1) == Some(&b'\\') {
+                        i += 2;
+                        break;
+                    }
+                    i += 1;
+                }
+            }
+            Some(_) => {
+                while i < bs.len() && (0x20..=0x2f).contains(&bs[i]) {
+                    i += 1;
+                }
+                if i < bs.len() && (0x30..=0x7e).contains(&bs[i]) {
+                    i += 1;
+                }
+            }
+            None => {}
+        }
+    }
+    out
+}
+
 /// `unmodelled strip <mode> <strip> <out>`
 fn eval_strip(op: &str, f: &[&str]) -> CaseRec {
     let mode = f[2];
@@ -630,6 +699,16 @@ fn eval_strip(op: &str, f: &[&str]) -> CaseRec {
         if so.contains(&0x1b) {
             fails.push(("C13:stdout-bytes".into(), "strip_ansi_escaping set but ESC recorded".into()));
         }
+        // "ANSI escape sequences are removed", nothing else (after CR LF -> LF, keep_crlf is unset here)
+        let want = ref_strip_ansi(&scrut::newline::replace_crlf(&out));
+        if so != want {
+            let drop_ctl = |v: &[u8]| v.iter().cloned().filter(|b| *b == b'\n' || *b >= 0x20).collect::<Vec<u8>>();
+            if so == drop_ctl(&want) {
+                fails.push(("C13:strip-ansi-drops-control-characters".into(), format!("strip_ansi_escaping: wrote {}, recorded {} (escape sequences AND the control characters TAB/CR/BEL/.. are gone)", hex(&out), hex(&so))));
+            } else {
+                fails.push(("C13:strip-ansi-bytes".into(), format!("strip_ansi_escaping: wrote {}, recorded {}, expected {}", hex(&out), hex(&so), hex(&want))));
+            }
+        }
     } else {
         fails.push(("C13:crash".into(), "no output".into()));
     }
@@ -645,6 +724,7 @@ fn eval_op(env: &Env, op: &str) -> CaseRec {
         ("render", 7) => eval_render(env, op, &f),
         ("crlf", 2) => eval_crlf(op, &f),
         ("rout", 4) => eval_rout(op, &f),
+        ("strip", 2) => eval_stripfn(op, &f),
         ("execall", 8) => eval_execall(env, op, &f),
         ("rmdiv", 2) => eval_rmdiv(env, op, &f),
         ("compile", 5) => eval_compile(env, op, &f),
@@ -869,6 +949,16 @@ pub fn run(ctx: &Ctx, prop: &str) {
             let bs: Vec<u8> = (0..n).map(|_| if r.chance(1, 2) { *r.pick(&[b'\r', b'\n']) } else { r.below(256) as u8 }).collect();
             Some(eval_op(&env, &format!("crlf {}", hex(&bs))))
         });
+        // the stripper: every byte string up to length 4 (thorough: 5) over the bytes that steer its state machine
+        let alpha = [0x1bu8, b'[', b']', b'P', b'0', b';', b' ', b'm', b'\\', 0x07, b'\t', b'x', 0xff, b'\n'];
+        let seqs = all_seqs(&alpha, if thorough { 5 } else { 4 });
+        ctx.run_stream("strip-exhaustive", seqs.len() as u64, true, |idx| Some(eval_op(&env, &format!("strip {}", hex(&seqs[idx as usize])))));
+        ctx.run_stream("strip-random", if thorough { 50000 } else { 5000 }, false, |idx| {
+            let mut r = Rng::fork(seed, 33, idx);
+            let n = r.range(0, 40);
+            let bs: Vec<u8> = (0..n).map(|_| match r.below(4) { 0 => *r.pick(&alpha), 1 => 0x1b, _ => r.below(256) as u8 }).collect();
+            Some(eval_op(&env, &format!("strip {}", hex(&bs))))
+        });
         let inputs: Vec<Vec<u8>> = payload_menu();
         let flags = ["-", "0", "1"];
         ctx.run_stream("render-output", (inputs.len() * 9) as u64, true, |idx| {
@@ -995,7 +1085,16 @@ pub fn run(ctx: &Ctx, prop: &str) {
             }
         }
         par_stream(ctx, "bash-big", bigs.len() as u64, false, |idx| Some(eval_op(&env, &bigs[idx as usize])));
-        let ansi: Vec<Vec<u8>> = vec![b"x\x1b[1mbold\x1b[0m\n".to_vec(), b"plain text\n".to_vec(), b"\x1b[31mred\x1b[m and \x1b]0;title\x07done\n".to_vec()];
+        let ansi: Vec<Vec<u8>> = vec![
+            b"x\x1b[1mbold\x1b[0m\n".to_vec(),
+            b"plain text\n".to_vec(),
+            b"\x1b[31mred\x1b[m and \x1b]0;title\x07done\n".to_vec(),
+            // control characters that are no escape sequences must survive the stripping
+            b"col1\tcol2\n".to_vec(),
+            b"\x1b[1mE\x1b[0m\ttab\n".to_vec(),
+            b"progress\rdone\n".to_vec(),
+            "pl\u{e4}in \u{2713}\x1b[0m\n".as_bytes().to_vec(),
+        ];
         par_stream(ctx, "bash-strip-ansi", (ansi.len() * 6) as u64, true, |idx| {
             let i = idx as usize;
             let mode = if i % 2 == 0 { "p" } else { "s" };
